@@ -211,13 +211,34 @@ def build_oracle_rpf():
     return exe
 
 
-def drive(exe, lines, env=None, timeout=1800):
-    """Feeds request lines, returns answer lines (same length)."""
+def drive(exe, lines, env=None, timeout=None):
+    """Feeds request lines, returns answer lines (same length). A harness that stops answering (an expansion that does not
+    terminate) is reported as a BuildError naming the first request without an answer, not waited for."""
     if not lines:
         return []
+    if timeout is None:
+        timeout = int(os.environ.get("VERIF_DRIVE_TIMEOUT", "0")) or max(300, len(lines) // 50)
     data = "\n".join(lines) + "\n"
-    p = subprocess.run([exe], input=data, env=env or ENV, stdout=subprocess.PIPE,
-                       stderr=subprocess.PIPE, text=True, timeout=timeout)
+    try:
+        p = subprocess.run([exe], input=data, env=env or ENV, stdout=subprocess.PIPE,
+                           stderr=subprocess.PIPE, text=True, timeout=timeout)
+    except subprocess.TimeoutExpired as e:
+        got = e.stdout or ""
+        if isinstance(got, bytes):
+            got = got.decode("utf-8", "replace")
+        k = got.count("\n")
+        # the harness buffers its answers: replay the tail one request at a time to name the one that hangs
+        culprit = None
+        for j in range(k, min(len(lines), k + 4000)):
+            try:
+                subprocess.run([exe], input=lines[j] + "\n", env=env or ENV, stdout=subprocess.PIPE, stderr=subprocess.PIPE,
+                               text=True, timeout=20)
+            except subprocess.TimeoutExpired:
+                culprit = lines[j]
+                break
+        raise BuildError(f"{os.path.basename(exe)} did not finish within {timeout} s: it stopped answering "
+                         + (f"at the request `{culprit[:300]}` (no answer within 20 s on its own: the expansion does not terminate)"
+                            if culprit else f"after {k} of {len(lines)} requests"), got[-500:])
     outs = p.stdout.split("\n")
     if outs and outs[-1] == "":
         outs.pop()
